@@ -173,7 +173,10 @@ func (nm LNumber) Format(f fmt.State, c rune) {
 		// C's %c writes the single byte (unsigned char)arg; fmt's %c would
 		// write the UTF-8 encoding of the code point
 		defaultFormat(string([]byte{byte(int64(nm))}), f, 's')
-	case 'b', 'd', 'o', 'x', 'X', 'U':
+	case 'o', 'x', 'X':
+		// unsigned conversions in C: the + and space flags do not apply
+		defaultFormat(int64(nm), unsignedState{f}, c)
+	case 'b', 'd', 'U':
 		defaultFormat(int64(nm), f, c)
 	case 'e', 'E', 'f', 'F', 'g', 'G':
 		if v := float64(nm); math.IsInf(v, 0) || math.IsNaN(v) {
@@ -190,6 +193,13 @@ func (nm LNumber) Format(f fmt.State, c rune) {
 			defaultFormat(float64(nm), f, c)
 		}
 	}
+}
+
+// unsignedState hides the sign flags of a fmt.State.
+type unsignedState struct{ fmt.State }
+
+func (s unsignedState) Flag(c int) bool {
+	return c != '+' && c != ' ' && s.State.Flag(c)
 }
 
 // formatNonFinite writes an infinity or a NaN the way C's printf does:
